@@ -317,7 +317,9 @@ type rateGuard struct {
 	samples map[string][]testCase
 }
 
-func newRateGuard() *rateGuard { return &rateGuard{hits: map[string]int{}, samples: map[string][]testCase{}} }
+func newRateGuard() *rateGuard {
+	return &rateGuard{hits: map[string]int{}, samples: map[string][]testCase{}}
+}
 
 func (g *rateGuard) note(c *testCase, known map[string]int) {
 	for tag := range known {
